@@ -24,6 +24,11 @@
 (*             subjects with the match at the start / in the middle / none,  *)
 (*             and the function replacer (undefined for such captures);      *)
 (*             exhaustive in both tiers                                      *)
+(*   "replfn"  function replacers whose result contains every $-form of Table  *)
+(*             22 or is not a string (number, undefined, null, boolean, an    *)
+(*             object with toString): the result is used as it is; RegExp     *)
+(*             (global or not, with and without captures) and String          *)
+(*             searchValues; string templates with a String searchValue       *)
 (*   "bytes"   exec of a global expression from every lastIndex on subjects  *)
 (*             with 2- and 3-byte characters (byte vs code unit offsets);    *)
 (*             targeted: $nn replacement references with 12 captures         *)
@@ -112,6 +117,10 @@ Js(c) ==
            LET h == IF S!RxClassify(c.src, c.flags) = "unsupported" THEN "REJECTED" ELSE "CLASSIFY" IN
            (IF c.form = "lit" THEN <<h \o "(function(){ return (0,eval)(", Lit(StrV(<<47>> \o c.src \o <<47>> \o c.flags)), "); })">>
             ELSE <<h \o "(function(){ return new RegExp(", Lit(StrV(c.src)), ",", Lit(StrV(c.flags)), "); })">>)
+      [] c.fam = "rs" ->                           \* String searchValue
+           <<"G(function(){ var L = [], s = ", Lit(StrV(c.s)), ", x = [s.replace(", Lit(StrV(c.search)), ", ">>
+           \o (IF c.m = "ret" THEN <<"function(){ L.push(Array.prototype.slice.call(arguments)); return ", Lit(c.ret), "; }">> ELSE <<Lit(StrV(c.rep))>>)
+           \o <<"), L]; return x; })">>
       [] c.fam = "props" -> <<"PROPS(">> \o Ctor(c.form, c.src, c.flags) \o <<")">>
       [] c.fam = "strm" ->
            <<"G(function(){ var r = ">> \o Ctor(c.form, c.src, c.flags) \o <<", L = [], s = ", Lit(StrV(c.s)), "; r.lastIndex = ", Lit(c.li), "; var x = ">>
@@ -122,6 +131,7 @@ Js(c) ==
                  [] c.m = "search" -> <<"s.search(r)">>
                  [] c.m = "split" -> IF c.lim.t = "undef" /\ c.omit THEN <<"s.split(r)">> ELSE <<"s.split(r, ", Lit(c.lim), ")">>
                  [] c.m = "replace" -> <<"[s.replace(r, ", Lit(StrV(c.rep)), "), L]">>
+                 [] c.m = "replaceret" -> <<"[s.replace(r, function(){ L.push(Array.prototype.slice.call(arguments)); return ", Lit(c.ret), "; }), L]">>
                  [] c.m = "replacefn" -> <<"[s.replace(r, function(){ L.push(Array.prototype.slice.call(arguments)); return '[' + arguments[0] + ']'; }), L]">>)
            \o <<"; return [x, r.lastIndex]; })">>
 
@@ -142,6 +152,10 @@ Expect(d, c) ==
                    ELSE IF k.thr = "SyntaxError" THEN <<83, 121, 110, 116, 97, 120, 69, 114, 114, 111, 114>>
                    ELSE IF k.thr = "TypeError" THEN <<84, 121, 112, 101, 69, 114, 114, 111, 114>>
                    ELSE <<69, 114, 114, 111, 114>>))                                             \* "Error": any error class
+      [] c.fam = "rs" ->
+           LET rv == IF c.m = "ret" THEN [k |-> "fnret", v |-> c.ret] ELSE [k |-> "str", s |-> c.rep]
+               x == IF d THEN L!RxStrReplaceS(c.s, c.search, rv) ELSE S!RxStrReplaceS(c.s, c.search, rv)
+           IN  [thr |-> "", v |-> x.v, log |-> x.clog]
       [] c.fam = "props" -> Ok(S!RxProps(S!RxNew(c.src, c.flags)))
       [] c.fam = "strm" ->
            LET k == IF d THEN L!RxConstructF(c.src, c.flags, c.form) ELSE S!RxConstructF(c.src, c.flags, c.form)
@@ -155,7 +169,10 @@ Expect(d, c) ==
                       [] c.m = "replace" -> IF d THEN L!RxStrReplace(X0, c.s, [k |-> "str", s |-> c.rep])
                                             ELSE S!RxStrReplace(X0, c.s, [k |-> "str", s |-> c.rep])
                       [] c.m = "replacefn" -> IF d THEN L!RxStrReplace(X0, c.s, [k |-> "fn"]) ELSE S!RxStrReplace(X0, c.s, [k |-> "fn"])
-           IN  IF k.thr # "" THEN [thr |-> k.thr, v |-> Undef, log |-> <<>>] ELSE Ok(Pair(x.v, x.R.li))
+                      [] c.m = "replaceret" -> IF d THEN L!RxStrReplace(X0, c.s, [k |-> "fnret", v |-> c.ret])
+                                               ELSE S!RxStrReplace(X0, c.s, [k |-> "fnret", v |-> c.ret])
+           IN  IF k.thr # "" THEN [thr |-> k.thr, v |-> Undef, log |-> <<>>]
+               ELSE [thr |-> "", v |-> Pair(x.v, x.R.li), log |-> IF c.m = "replaceret" THEN x.clog ELSE <<>>]
 
 (* classification of a pattern text for the direct translation pass *)
 Cls(d, src) ==
@@ -180,6 +197,11 @@ StrmOps(nc) ==                                   \* the method variants for a pa
     \cup {[m |-> "split", lim |-> Limits[i], omit |-> FALSE] : i \in 1..Len(Limits)} \cup {[m |-> "split", lim |-> Undef, omit |-> TRUE]}
     \cup {[m |-> "replace", rep |-> X_Repls[i]] : i \in {j \in 1..Len(X_Repls) : S!RxReplDefined(X_Repls[j], nc)}}
 
+(* what the function replacer returns: every $-form as a string, and values that are not strings *)
+FnRets == {StrV(X_FnRet[i]) : i \in 1..Len(X_FnRet)}
+          \cup {IntV(5), NumV(Canon(FALSE, <<3>>, -1)), Undef, Null, BoolV(TRUE),
+                [t |-> "cobj", id |-> 9, vo |-> [k |-> "inherit"], ts |-> [k |-> "ret", v |-> StrV(<<36, 38, 33>>)]],          \* toString: "$&!"
+                [t |-> "cobj", id |-> 8, vo |-> [k |-> "ret", v |-> IntV(7)], ts |-> [k |-> "retobj"]]}                      \* toString gives an object: valueOf
 BytePats == <<<<97>>, <<46>>, <<233>>, <<91, 94, 97, 93>>, <<92, 87>>, <<40, 46, 41, 40, 97, 41, 63>>, <<36>>, <<46, 46>>, <<92, 98>>, <<>>, <<92, 119, 42>>>>
 ByteSubj == <<<<233, 97>>, <<97, 233, 97>>, <<20013, 97>>, <<233>>, <<97, 20013, 233>>, <<97, 97>>>>
 Block(seq, b) == Pick(NPat, {i \in 1..Len(seq) : i % K = b - 1})
@@ -222,6 +244,14 @@ Next ==
                      cs' = [fam |-> "strm", m |-> "replace", form |-> IF (pi + ti) % 2 = 0 THEN "lit" ELSE "ctor", src |-> X_ReplPats[pi], flags |-> fl,
                             s |-> X_ReplSubj[si], li |-> IntV(0), rep |-> X_ReplT[ti]]
                \/ cs' = [fam |-> "strm", m |-> "replacefn", form |-> "lit", src |-> X_ReplPats[pi], flags |-> fl, s |-> X_ReplSubj[si], li |-> IntV(0)]
+       ELSE IF fam = "replfn"
+       THEN \E si \in {i \in 1..Len(X_FnSubj) : i % K = b - 1} :
+               \/ \E pi \in 1..Len(X_FnPats), fl \in {<<>>, <<103>>}, ret \in FnRets :
+                     cs' = [fam |-> "strm", m |-> "replaceret", form |-> "lit", src |-> X_FnPats[pi], flags |-> fl, s |-> X_FnSubj[si], li |-> IntV(0), ret |-> ret]
+               \/ \E qi \in 1..Len(X_FnSearch), ret \in FnRets :
+                     cs' = [fam |-> "rs", m |-> "ret", s |-> X_FnSubj[si], search |-> X_FnSearch[qi], ret |-> ret]
+               \/ \E qi \in 1..Len(X_FnSearch), ti \in 1..Len(X_ReplT) :
+                     cs' = [fam |-> "rs", m |-> "str", s |-> X_FnSubj[si], search |-> X_FnSearch[qi], rep |-> X_ReplT[ti]]
        ELSE IF fam = "bytes"
        THEN \/ /\ b <= Len(BytePats)
                /\ \E si \in 1..Len(ByteSubj), li \in 0..8 :
